@@ -1784,7 +1784,17 @@ func ParseRouteDistinguisher(rd string) (RouteDistinguisherInterface, error) {
 	case ip.Is4():
 		return NewRouteDistinguisherIPAddressAS(ip, uint16(assigned))
 	case elems[6] == "" && elems[7] == "":
-		asn, _ := strconv.ParseUint(elems[8], 10, 16)
+		// asplain notation: an AS number above 65535 needs the four-octet form
+		asn, err := strconv.ParseUint(elems[8], 10, 32)
+		if err != nil {
+			return nil, fmt.Errorf("invalid AS number in %q: %w", rd, err)
+		}
+		if asn > math.MaxUint16 {
+			if assigned > math.MaxUint16 {
+				return nil, fmt.Errorf("invalid assigned number in %q: a four-octet AS leaves two octets", rd)
+			}
+			return NewRouteDistinguisherFourOctetAS(uint32(asn), uint16(assigned)), nil
+		}
 		return NewRouteDistinguisherTwoOctetAS(uint16(asn), uint32(assigned)), nil
 	default:
 		fst, _ := strconv.ParseUint(elems[7], 10, 16)
@@ -13573,7 +13583,17 @@ func ParseExtendedCommunity(subtype ExtendedCommunityAttrSubType, com string) (E
 	case addr.Is6():
 		return NewIPv6AddressSpecificExtended(subtype, addr, uint16(localAdmin), isTransitive)
 	case elems[6] == "" && elems[7] == "":
-		asn, _ := strconv.ParseUint(elems[8], 10, 16)
+		// "asn:value" in asplain notation: an AS number above 65535 needs the four-octet form
+		asn, err := strconv.ParseUint(elems[8], 10, 32)
+		if err != nil {
+			return nil, fmt.Errorf("invalid AS number in %q: %w", com, err)
+		}
+		if asn > math.MaxUint16 {
+			if localAdmin > math.MaxUint16 {
+				return nil, fmt.Errorf("invalid local administrator in %q: a four-octet AS leaves two octets", com)
+			}
+			return NewFourOctetAsSpecificExtended(subtype, uint32(asn), uint16(localAdmin), isTransitive), nil
+		}
 		return NewTwoOctetAsSpecificExtended(subtype, uint16(asn), uint32(localAdmin), isTransitive), nil
 	default:
 		fst, _ := strconv.ParseUint(elems[7], 10, 16)
